@@ -4,6 +4,7 @@ package zzverif
 
 import (
 	"os"
+	"strconv"
 	"strings"
 
 	"github.com/HobbyOSs/gosk/internal/zzverif/vrt"
@@ -20,6 +21,20 @@ var c10Pool = []string{
 	"DB \"hello\",0 ; RESB 4 ; ALIGNB 8 ; DW 0xaa55 ; DD 0x12345678",
 	"MOV AX,L ; ADD BX,L ; CMP WORD [SI],L",
 	"[BITS 32] ; GLOBAL _f, _g ; _f: ; MOV AX,0 ; RET ; _g: ; HLT ; RET",
+	// a (diagnosed) self-referential EQU, used several times: whatever guard
+	// handles it must not leave state behind for the next assembly ...
+	"QS EQU QS+1 ; DB 1 ; MOV AL,QS ; MOV AL,QS ; MOV AL,QS ; MOV AL,QS",
+	// ... such as this chain of EQUs, 30 deep
+	c10Chain(30),
+}
+
+func c10Chain(n int) string {
+	var sb strings.Builder
+	for i := 0; i < n; i++ {
+		sb.WriteString("QE" + strconv.Itoa(i) + " EQU QE" + strconv.Itoa(i+1) + "+1 ; ")
+	}
+	sb.WriteString("QE" + strconv.Itoa(n) + " EQU 7 ; DB QE0 ; MOV AL,QE0")
+	return sb.String()
 }
 
 func c10Asm(prog string, l int64, tag, key string) ([]byte, string) {
